@@ -83,13 +83,24 @@ func genKey(t *rapid.T, p *Profile) []byte {
 	case r < 97 || !p.BigKeys:
 		return rapid.SliceOfN(rapid.Byte(), 1, 12).Draw(t, "key")
 	case r < 99 || uni(t, 6, "huge") != 3:
-		n := rapid.SampledFrom([]int{255, 256, 300}).Draw(t, "keylen")
-		return bytes.Repeat([]byte{rapid.Byte().Draw(t, "fill")}, n)
+		n := rapid.SampledFrom([]int{255, 256, 300, 113, 129, 241}).Draw(t, "keylen")
+		return patternKey(n, rapid.Byte().Draw(t, "fill"))
 	default:
-		b := bytes.Repeat([]byte{'K'}, 65535)
+		b := patternKey(65535, 'K')
 		b[65534] = rapid.Byte().Draw(t, "last")
 		return b
 	}
+}
+
+// patternKey returns an n-byte key whose bytes all differ from their
+// neighbours at every distance up to 250 (a key read back from a wrong offset,
+// or assembled from misplaced pieces, does not compare equal).
+func patternKey(n int, fill byte) []byte {
+	b := make([]byte, n)
+	for i := range b {
+		b[i] = fill + byte(i%251)*7 + byte(i/251)
+	}
+	return b
 }
 
 var hostileVals = [][]byte{
